@@ -293,7 +293,21 @@ class Gen:
         q = self.slot()
         if n is None:
             n = self.r.choice(LENGTHS) if self.tier == "quick" or self.chance(0.8) else self.r.choice([500, 1000, 1023, 1024, 1025, 2100])
-        self.emit("st", q, S(self.seq_text(protein, n)), self.protein_arg(protein))
+        text = S(self.seq_text(protein, n))
+        if self.chance(0.25):
+            e = self.slot()
+            self.emit("es", e, text, self.protein_arg(protein))
+            if self.chance(0.4):
+                self.emit("sr", e)
+            if self.chance(0.3):
+                e2 = self.slot()
+                self.emit("cp", e2, e, self.r.choice(["m", "c"]))
+                if self.chance(0.5):
+                    self.emit("dl", e)
+                e = e2
+            self.emit("et", q, e)
+        else:
+            self.emit("st", q, text, self.protein_arg(protein))
         return q, n
 
     def use_scores(self, sc):
@@ -341,8 +355,15 @@ class Gen:
         self.emit("ca", sc, s, ("V", q))
         self.use_scores(sc)
         self.use_pvalues(s, width, protein)
+        if self.chance(0.4):
+            self.emit("sd", self.slot(), s)
         rc = self.slot()
         self.emit("rc", rc, s)
+        if self.chance(0.5):
+            self.emit("eq", s, self.r.choice([("V", rc), ("V", s), ("V", q), N_, I(3), ("V", 0)]))
+        if not protein and self.chance(0.5):
+            self.emit("sd", self.slot(), rc)
+            self.emit("sd", self.slot(), s)
         if not protein:
             sc2 = self.slot()
             self.emit("ca", sc2, rc, ("V", q))
@@ -375,6 +396,25 @@ class Gen:
             sc = self.slot()
             self.emit("ca", sc, s, ("V", q))
             self.use_scores(sc)
+        if self.chance(0.5) and motifs:
+            # a copy of the sequence goes its own way: reconfigure one, use the other
+            q2 = self.slot()
+            self.emit("cp", q2, q, r.choice(["m", "c"]))
+            wide = self.make_motif(protein, r.randint(15, 40) if not protein else 6, route="cr", clean=True)
+            sc = self.slot()
+            self.emit("ca", sc, wide, ("V", q2 if self.chance(0.5) else q))
+            self.emit("mx", sc)
+            s0, w0 = motifs[0]
+            for qq in (q, q2):
+                sc = self.slot()
+                self.emit("ca", sc, s0, ("V", qq))
+                self.emit(r.choice(["mx", "am"]), sc)
+            if self.chance(0.4):
+                self.emit("dl", q)
+                sc = self.slot()
+                self.emit("ca", sc, s0, ("V", q2))
+                self.emit("am", sc)
+                return
         # come back to earlier motifs after the sequence was reconfigured
         for s, w in r.sample(motifs, min(len(motifs), 2)):
             sc = self.slot()
@@ -485,6 +525,16 @@ class Gen:
             marks = [i for i in range(1, n) if data[i - 1:i] == b"\n" and (data[i:i + 1] == b">" or data[i - 3:i] == b"//\n" or data[i - 2:i] == b"\n\n")]
             k = r.choice([0, n, r.randint(0, n)] + (marks * 3 if marks else []))
             mode = r.choice(["fb%d" % k, "fb%d" % k, "fu%d" % k, "fk%d" % k, "fz%d" % k, "fn%d" % r.randint(0, nl + 1), "fe", "fx"])
+        if not protein and self.chance(0.2):
+            # a file object that misbehaves on a later read(): raises, returns non-bytes / too much, closes itself
+            # only the two kinds of failure that lightmotif-py turns into an io::Error without leaving a Python
+            # exception pending: an OSError with an errno, and too many bytes.  The other kinds (exception without
+            # errno, non-bytes, file closing itself: modes k o s n c of the worker) leave the exception pending in
+            # the thread state (known finding F27) and what follows depends on the call path.
+            what = r.choice("pm")
+            kth = r.choice([2, 2, 3, 4, 5, 7])
+            chunk = r.choice([1, 5, 20, 64, 300, 8192])
+            mode = "X%s%dc%d" % (what, kth, chunk)
         fmt_arg = S(fmt) if fmt != "jaspar" or self.chance(0.5) else None
         ld = self.slot()
         self.emit(r.choice(["ld", "ld", "lc"]), ld, mode, data.hex() or "-", fmt_arg, B(protein) if protein or self.chance(0.3) else None)
@@ -583,6 +633,58 @@ class Gen:
                     prot = r.choice([I(1), N_, S("no")])
                 self.emit("ld", self.slot(), mode, data.hex(), fmt, prot)
 
+    def t_equal(self):
+        """==, copies and str: equal data from different routes, the number of sequences, other alphabets"""
+        r = self.r
+        protein = self.chance(0.25)
+        width = r.randint(1, 5)
+        seqs = [self.seq_text(protein, width, with_unknown=False) for _ in range(r.randint(1, 6))]
+        m, c = self.slot(), self.slot()
+        self.emit("cr", m, L(S(x) for x in seqs), B(protein) if protein or self.chance(0.5) else None, None)
+        self.emit("gm", c, m, "c")
+        # the same counts through a dictionary (the number of sequences may differ from the row sums)
+        al = self.syms(protein)
+        cols = D([(S(a), L(I(sum(1 for x in seqs if x[i] == a)) for i in range(width))) for a in al])
+        c2, c3 = self.slot(), self.slot()
+        self.emit("cm", c2, cols, B(protein))
+        self.emit("cm", c3, self.counts_dict(protein, width), B(protein))
+        for a, b in [(c, c2), (c2, c), (c2, c2), (c2, c3), (c, m)]:
+            self.emit("eq", a, ("V", b))
+        self.emit("eq", c, r.choice([N_, I(1), S("x"), L([]), ("V", 99)]))
+        w1, w2, w3 = self.slot(), self.slot(), self.slot()
+        pc = F(r.choice([0.1, 0.5, 1.0]))
+        self.emit("nz", w1, c, pc)
+        self.emit("nz", w2, c2, pc)
+        self.emit("nz", w3, c2, F(0.75))
+        for a, b in [(w1, w2), (w2, w3), (w1, c)]:
+            self.emit("eq", a, ("V", b))
+        s1, s2, s3 = self.slot(), self.slot(), self.slot()
+        bg = self.background(protein)
+        self.emit("lo", s1, w1, bg, None)
+        self.emit("lo", s2, w2, bg, None)
+        self.emit("lo", s3, w2, None, F(10.0))
+        for a, b in [(s1, s2), (s2, s3), (s1, w1)]:
+            self.emit("eq", a, ("V", b))
+        self.emit("gm", self.slot(), m, "s")
+        self.emit("eq", self.n - 1, ("V", s3))
+        if not protein:
+            rc, rc2 = self.slot(), self.slot()
+            self.emit("rc", rc, s1)
+            self.emit("rc", rc2, rc)
+            self.emit("eq", rc2, ("V", s1))
+            self.emit("eq", rc, ("V", s1))
+        other = self.slot()
+        self.emit("cm", other, self.counts_dict(not protein, width), B(not protein))
+        self.emit("eq", c2, ("V", other))
+        # copies: only the sequences have them
+        self.emit("cp", self.slot(), c, "c")
+        self.emit("cp", self.slot(), s1, "c")
+        e, e2 = self.slot(), self.slot()
+        self.emit("es", e, r.choice([S(self.seq_text(protein, r.randint(0, 40))), S("acgt"), I(3), S("AC GT")]), r.choice([None, B(protein), I(1)]))
+        self.emit("cp", e2, e, r.choice(["m", "c"]))
+        self.emit("sr", e2)
+        self.emit("et", self.slot(), e2)
+
     def t_lifetime(self):
         """matrices and sequences lose their last name while scanners / scores / motif parts made from them live on"""
         r = self.r
@@ -635,9 +737,11 @@ class Gen:
             self.t_reuse()
         elif r < 0.62:
             self.t_scan()
-        elif r < 0.70:
+        elif r < 0.69:
             self.t_lifetime()
-        elif r < 0.86:
+        elif r < 0.74:
+            self.t_equal()
+        elif r < 0.88:
             self.t_load()
         else:
             self.t_invalid()
